@@ -15,6 +15,12 @@
      callback frames: _call_callback passes the de-referenced weak arguments as strong ones.
    * Everything observable is an [event] tree: an emit contains the calls it made, a call
      contains what its script did.
+   * Classes are created before the history starts: [create_class] is MetaSignals.__init__
+     (what a class statement registers, given its bases, its MRO and its `signals` body list);
+     [boot] creates all classes of a case.
+   * The widgets named by the property are users of the machinery: [OClick] (Button),
+     [OSetState] (CheckBox.set_state) and [OSetText] (Edit.set_edit_text) are the widget methods,
+     written from wimp.py / edit.py; the widget state is [st_wstate].
    * Nested emits consume fuel (the depth bound the harness imposes as its recursion limit);
      running out of it is the error RecursionError (-3).
    No proofs in this file. *)
@@ -24,7 +30,8 @@ From Urwid Require Import PyBase.
 Open Scope Z_scope.
 
 (* ---------- data ---------- *)
-Inductive val := VObj (o : Z) | VInt (n : Z).
+(* a weakly referenced object, an integer standing for a plain value, the sender (widget) itself *)
+Inductive val := VObj (o : Z) | VInt (n : Z) | VSelf (s : Z).
 
 (* one entry of obj._urwid_signals[name]: (key, callback, user_arg, (weak_args, user_args)) *)
 Record handler := MkHandler {
@@ -37,7 +44,11 @@ Inductive op :=
   | ODisconnectKey (s n k : Z)
   | OEmit (s n : Z) (args : list Z)
   | OKill (o : Z)
-  | OGc.
+  | OGc
+  (* the widgets named by the property's anchors, as users of the machinery *)
+  | OClick (s n : Z)                  (* Button: self._emit("click") (keypress / mouse_event activate) *)
+  | OSetState (s nc np v : Z)         (* CheckBox.set_state(v); nc, np = the names 'change', 'postchange' *)
+  | OSetText (s nc np v : Z).         (* Edit.set_edit_text(v) *)
 
 Record script := MkScript { sc_ops : list op; sc_ret : Z }.
 
@@ -60,7 +71,9 @@ Inductive event :=
   | EvCall (key cb : Z) (argv : list val) (body : list event) (ret : option Z) (* None: an exception left it *)
   | EvKill (o : Z) (outcome : Z)
   | EvDied (o : Z)
-  | EvGc.
+  | EvGc
+  (* a widget method: code 0 click, 1 set_state, 2 set_edit_text; the emits it made (EvEmit nodes); 0 | error code *)
+  | EvWOp (code s v : Z) (emits : list event) (outcome : Z).
 
 Record state := MkState {
   st_sup : list (Z * list Z);                  (* Signals._supported : class -> names *)
@@ -70,17 +83,19 @@ Record state := MkState {
   st_pend : list Z;                            (* dropped by the caller, not dead yet (sorted) *)
   st_dead : list Z;                            (* objects that died *)
   st_held : list Z;                            (* arguments of the active callback frames *)
-  st_calls : Z                                 (* callback invocations so far *)
+  st_calls : Z;                                (* callback invocations so far *)
+  st_wstate : list (Z * Z)                     (* sender -> CheckBox._state / Edit._edit_text (as an integer) *)
 }.
 
-Definition set_sup st v := MkState v (st_tab st) (st_nkey st) (st_reg st) (st_pend st) (st_dead st) (st_held st) (st_calls st).
-Definition set_tab st v := MkState (st_sup st) v (st_nkey st) (st_reg st) (st_pend st) (st_dead st) (st_held st) (st_calls st).
-Definition set_nkey st v := MkState (st_sup st) (st_tab st) v (st_reg st) (st_pend st) (st_dead st) (st_held st) (st_calls st).
-Definition set_reg st v := MkState (st_sup st) (st_tab st) (st_nkey st) v (st_pend st) (st_dead st) (st_held st) (st_calls st).
-Definition set_pend st v := MkState (st_sup st) (st_tab st) (st_nkey st) (st_reg st) v (st_dead st) (st_held st) (st_calls st).
-Definition set_dead st v := MkState (st_sup st) (st_tab st) (st_nkey st) (st_reg st) (st_pend st) v (st_held st) (st_calls st).
-Definition set_held st v := MkState (st_sup st) (st_tab st) (st_nkey st) (st_reg st) (st_pend st) (st_dead st) v (st_calls st).
-Definition set_calls st v := MkState (st_sup st) (st_tab st) (st_nkey st) (st_reg st) (st_pend st) (st_dead st) (st_held st) v.
+Definition set_sup st v := MkState v (st_tab st) (st_nkey st) (st_reg st) (st_pend st) (st_dead st) (st_held st) (st_calls st) (st_wstate st).
+Definition set_tab st v := MkState (st_sup st) v (st_nkey st) (st_reg st) (st_pend st) (st_dead st) (st_held st) (st_calls st) (st_wstate st).
+Definition set_nkey st v := MkState (st_sup st) (st_tab st) v (st_reg st) (st_pend st) (st_dead st) (st_held st) (st_calls st) (st_wstate st).
+Definition set_reg st v := MkState (st_sup st) (st_tab st) (st_nkey st) v (st_pend st) (st_dead st) (st_held st) (st_calls st) (st_wstate st).
+Definition set_pend st v := MkState (st_sup st) (st_tab st) (st_nkey st) (st_reg st) v (st_dead st) (st_held st) (st_calls st) (st_wstate st).
+Definition set_dead st v := MkState (st_sup st) (st_tab st) (st_nkey st) (st_reg st) (st_pend st) v (st_held st) (st_calls st) (st_wstate st).
+Definition set_held st v := MkState (st_sup st) (st_tab st) (st_nkey st) (st_reg st) (st_pend st) (st_dead st) v (st_calls st) (st_wstate st).
+Definition set_calls st v := MkState (st_sup st) (st_tab st) (st_nkey st) (st_reg st) (st_pend st) (st_dead st) (st_held st) v (st_wstate st).
+Definition set_wstate st v := MkState (st_sup st) (st_tab st) (st_nkey st) (st_reg st) (st_pend st) (st_dead st) (st_held st) (st_calls st) v.
 
 Definition memz (x : Z) (l : list Z) : bool := existsb (Z.eqb x) l.
 
@@ -233,12 +248,12 @@ Fixpoint run_seq (step : op -> state -> state * list event * status) (ops : list
   end.
 
 (* ---------- Signals._call_callback ---------- *)
-Definition argv_of (h : handler) (args : list Z) : list val :=
-  map VObj (h_wargs h) ++ map VInt (h_uargs h) ++ map VInt args
+Definition argv_of (h : handler) (args : list val) : list val :=
+  map VObj (h_wargs h) ++ map VInt (h_uargs h) ++ args
       ++ match h_uarg h with Some u => [VInt u] | None => [] end.
 
 Definition call_callback (run : list op -> state -> state * list event * status) (env : envt)
-           (args : list Z) (h : handler) (st : state) : state * list event * status * bool :=
+           (args : list val) (h : handler) (st : state) : state * list event * status * bool :=
   (* for w_arg in weak_args: real_arg = w_arg(); if real_arg is None: return False *)
   if existsb (fun w => memz w (st_dead st)) (h_wargs h) then (st, [], Done, false)
   (* the harness callback refuses to run once the case's call budget is used up (it raises) *)
@@ -280,6 +295,19 @@ Fixpoint emit_loop (call : handler -> state -> state * list event * status * boo
         end
   end.
 
+Fixpoint wlookup (t : list (Z * Z)) (s : Z) : Z :=
+  match t with
+  | [] => 0
+  | (s', v) :: r => if s' =? s then v else wlookup r s
+  end.
+Fixpoint wupdate (t : list (Z * Z)) (s v : Z) : list (Z * Z) :=
+  match t with
+  | [] => [(s, v)]
+  | (s', v') :: r => if s' =? s then (s', v) :: r else (s', v') :: wupdate r s v
+  end.
+Definition wstate (st : state) (s : Z) : Z := wlookup (st_wstate st) s.
+Definition outcome_of (s1 : status) (ok : Z) : Z := match s1 with Done => ok | Raised c => c end.
+
 (* ---------- one operation (top level or inside a script) ---------- *)
 Fixpoint run_op (fuel : nat) (env : envt) (o : op) (st : state) {struct fuel}
   : state * list event * status :=
@@ -297,8 +325,60 @@ Fixpoint run_op (fuel : nat) (env : envt) (o : op) (st : state) {struct fuel}
           (* result = False; handlers = getattr(obj, "_urwid_signals", {}).get(name, []) *)
           let snap := handlers st s n in
           let '(st1, ch, s1, res) :=
-            emit_loop (call_callback (run_seq (run_op f env)) env args) s n snap st false in
+            emit_loop (call_callback (run_seq (run_op f env)) env (map VInt args)) s n snap st false in
           (st1, [EvEmit s n args ch (match s1 with Done => enc_bool res | Raised c => c end)], s1)
+      end
+  (* Widget._emit(name, *args) = signals.emit_signal(self, name, self, *args); the result is dropped *)
+  | OClick s n =>
+      match fuel with
+      | O => (st, [EvWOp 0 s 0 [] (-3)], Raised (-3))
+      | S f =>
+          let '(st1, ch, s1, res) :=
+            emit_loop (call_callback (run_seq (run_op f env)) env [VSelf s]) s n (handlers st s n) st false in
+          (st1, [EvWOp 0 s 0 [EvEmit s n [] ch (outcome_of s1 (enc_bool res))] (outcome_of s1 0)], s1)
+      end
+  (* CheckBox.set_state(state):
+       if self._state == state: return
+       old_state = self._state
+       self._emit("change", state); self._state = state; ...; self._emit("postchange", old_state) *)
+  | OSetState s nc np v =>
+      match fuel with
+      | O => (st, [EvWOp 1 s v [] (-3)], Raised (-3))
+      | S f =>
+          if wstate st s =? v then (st, [EvWOp 1 s v [] 0], Done)
+          else
+            let old := wstate st s in
+            let '(st1, ch1, s1, r1) :=
+              emit_loop (call_callback (run_seq (run_op f env)) env [VSelf s; VInt v]) s nc (handlers st s nc) st false in
+            match s1 with
+            | Raised c => (st1, [EvWOp 1 s v [EvEmit s nc [v] ch1 c] c], Raised c)
+            | Done =>
+                let st2 := set_wstate st1 (wupdate (st_wstate st1) s v) in
+                let '(st3, ch2, s3, r3) :=
+                  emit_loop (call_callback (run_seq (run_op f env)) env [VSelf s; VInt old]) s np (handlers st2 s np) st2 false in
+                (st3, [EvWOp 1 s v [EvEmit s nc [v] ch1 (enc_bool r1); EvEmit s np [old] ch2 (outcome_of s3 (enc_bool r3))]
+                             (outcome_of s3 0)], s3)
+            end
+      end
+  (* Edit.set_edit_text(text):
+       self._emit("change", text); old_text = self._edit_text; self._edit_text = text; ...
+       self._emit("postchange", old_text)        (old_text is read after the first emit) *)
+  | OSetText s nc np v =>
+      match fuel with
+      | O => (st, [EvWOp 2 s v [] (-3)], Raised (-3))
+      | S f =>
+          let '(st1, ch1, s1, r1) :=
+            emit_loop (call_callback (run_seq (run_op f env)) env [VSelf s; VInt v]) s nc (handlers st s nc) st false in
+          match s1 with
+          | Raised c => (st1, [EvWOp 2 s v [EvEmit s nc [v] ch1 c] c], Raised c)
+          | Done =>
+              let old := wstate st1 s in
+              let st2 := set_wstate st1 (wupdate (st_wstate st1) s v) in
+              let '(st3, ch2, s3, r3) :=
+                emit_loop (call_callback (run_seq (run_op f env)) env [VSelf s; VInt old]) s np (handlers st2 s np) st2 false in
+              (st3, [EvWOp 2 s v [EvEmit s nc [v] ch1 (enc_bool r1); EvEmit s np [old] ch2 (outcome_of s3 (enc_bool r3))]
+                           (outcome_of s3 0)], s3)
+          end
       end
   end.
 
@@ -322,7 +402,75 @@ Fixpoint run_top (fuel : nat) (env : envt) (ops : list op) (st : state) : state 
 
 Definition zseq (n : Z) : list Z := map Z.of_nat (seq 0 (Z.to_nat n)).
 
-Definition init (nobj : Z) : state := MkState [] [] 0 (zseq nobj) [] [] [] 0.
+Definition init (nobj : Z) : state := MkState [] [] 0 (zseq nobj) [] [] [] 0 [].
+
+(* ---------- MetaSignals.__init__: what a class registers when it is created ---------- *)
+(* a class statement: direct bases, the method resolution order of the class without the class
+   itself and without object (computed by Python, an input here), declared with
+   metaclass=MetaSignals or not, the `signals` list of the class body if there is one *)
+Record clsdef := MkCls { c_bases : list Z; c_mro : list Z; c_meta : bool; c_sig : option (list Z) }.
+
+Fixpoint dict_lookup (dicts : list (Z * list Z)) (c : Z) : option (list Z) :=
+  match dicts with
+  | [] => None
+  | (c', v) :: r => if c' =? c then Some v else dict_lookup r c
+  end.
+
+(* getattr(c, "signals", []): the first class of c's MRO that has the attribute in its own __dict__ *)
+Fixpoint attr_along (dicts : list (Z * list Z)) (path : list Z) : list Z :=
+  match path with
+  | [] => []
+  | c :: r => match dict_lookup dicts c with Some v => v | None => attr_along dicts r end
+  end.
+
+Definition mro_of (defs : list clsdef) (c : Z) : list Z :=
+  match nthz defs c with Some d => c_mro d | None => [] end.
+
+Definition class_attr (defs : list clsdef) (dicts : list (Z * list Z)) (c : Z) : list Z :=
+  attr_along dicts (c :: mro_of defs c).
+
+(* list(dict.fromkeys(l).keys()): first occurrences, in order *)
+Fixpoint dedupe (l : list Z) : list Z :=
+  match l with
+  | [] => []
+  | x :: r => x :: filter (fun y => negb (y =? x)) (dedupe r)
+  end.
+
+(* creation state: the `signals` entries of the class __dict__s, _supported, the classes whose
+   metaclass is MetaSignals *)
+Record cstate := MkCState { cs_dicts : list (Z * list Z); cs_sup : list (Z * list Z); cs_metas : list Z }.
+
+(* signals = d.get("signals", [])
+   for superclass in cls.__bases__: signals.extend(getattr(superclass, "signals", []))
+   signals = list(dict.fromkeys(signals).keys()); d["signals"] = signals      (d is not the class any more)
+   register_signal(cls, signals) *)
+Definition create_class (defs : list clsdef) (cs : cstate) (i : Z) (d : clsdef) : cstate * list event :=
+  (* the metaclass of a class statement: the declared one, or the one of a base *)
+  if c_meta d || existsb (fun b => memz b (cs_metas cs)) (c_bases d) then
+    let own := match c_sig d with Some l => l | None => [] end in
+    let all := own ++ flat_map (class_attr defs (cs_dicts cs)) (c_bases d) in
+    (MkCState (match c_sig d with Some _ => (i, all) :: cs_dicts cs | None => cs_dicts cs end)
+              (sup_update (cs_sup cs) i (dedupe all))
+              (i :: cs_metas cs),
+     [EvReg i (dedupe all)])
+  else
+    (MkCState (match c_sig d with Some l => (i, l) :: cs_dicts cs | None => cs_dicts cs end)
+              (cs_sup cs) (cs_metas cs),
+     []).
+
+Fixpoint create_classes (defs : list clsdef) (cs : cstate) (i : Z) (todo : list clsdef) : cstate * list event :=
+  match todo with
+  | [] => (cs, [])
+  | d :: r =>
+      let '(cs1, e1) := create_class defs cs i d in
+      let '(cs2, e2) := create_classes defs cs1 (i + 1) r in
+      (cs2, e1 ++ e2)
+  end.
+
+(* the state a case starts in: its classes have been created, its widgets have their initial state *)
+Definition boot (defs : list clsdef) (wst : list Z) (nobj : Z) : state * list event :=
+  let '(cs, evs) := create_classes defs (MkCState [] [] []) 0 defs in
+  (set_wstate (set_sup (init nobj) (cs_sup cs)) (combine (zseq (zlen wst)) wst), evs).
 
 (* ================= wire format ================= *)
 Definition dec_optz (l : list Z) : option (option Z * list Z) := dec_oz l.
@@ -362,6 +510,9 @@ Definition dec_op (l : list Z) : option (op * list Z) :=
       match dec_list r with Some (args, r1) => Some (OEmit s n args, r1) | None => None end
   | 6 :: o :: r => Some (OKill o, r)
   | 7 :: r => Some (OGc, r)
+  | 8 :: s :: n :: r => Some (OClick s n, r)
+  | 9 :: s :: nc :: np :: v :: r => Some (OSetState s nc np v, r)
+  | 10 :: s :: nc :: np :: v :: r => Some (OSetText s nc np v, r)
   | _ => None
   end.
 
@@ -401,7 +552,8 @@ Fixpoint dec_scripts (count : nat) (l : list Z) : option (list script * list Z) 
   end.
 
 Definition enc_optz (o : option Z) : list Z := enc_oz o.
-Definition enc_val (v : val) : list Z := match v with VObj o => [1; o] | VInt n => [0; n] end.
+Definition enc_val (v : val) : list Z :=
+  match v with VObj o => [1; o] | VInt n => [0; n] | VSelf s => [2; s] end.
 
 (* an event tree as the flat events the harness logs, in the order it logs them *)
 Fixpoint ser (e : event) : list (list Z) :=
@@ -423,6 +575,18 @@ Fixpoint ser (e : event) : list (list Z) :=
   | EvKill o out => [[9; o; out]]
   | EvDied o => [[10; o]]
   | EvGc => [[11]]
+  | EvWOp code s v emits out =>
+      (* the harness sees the widget method start and end and the calls in between, not the emits *)
+      [13; code; s; v]
+        :: (fix go (l : list event) : list (list Z) :=
+              match l with
+              | [] => []
+              | EvEmit _ _ _ ch _ :: r =>
+                  (fix go2 (l2 : list event) : list (list Z) :=
+                     match l2 with [] => [] | x :: r2 => ser x ++ go2 r2 end) ch ++ go r
+              | x :: r => ser x ++ go r
+              end) emits
+        ++ [[14; out]]
   end.
 
 Definition enc_final (st : state) (nsenders nnames : Z) : list Z :=
@@ -431,15 +595,56 @@ Definition enc_final (st : state) (nsenders nnames : Z) : list Z :=
       match keys st s n with [] => [] | ks => [s :: n :: enc_list ks] end) (zseq nnames)) (zseq nsenders) in
   zlen entries :: concat entries.
 
-(* case = fuel, nnames, maxcalls, classes, senders, cyclic flags, scripts, ops *)
+Definition dec_cls (l : list Z) : option (clsdef * list Z) :=
+  match l with
+  | m :: r =>
+      match dec_list r with
+      | Some (bases, r1) =>
+          match dec_list r1 with
+          | Some (mro, r2) =>
+              match r2 with
+              | 0 :: r3 => Some (MkCls bases mro (negb (m =? 0)) None, r3)
+              | 1 :: r3 =>
+                  match dec_list r3 with
+                  | Some (sig, r4) => Some (MkCls bases mro (negb (m =? 0)) (Some sig), r4)
+                  | None => None
+                  end
+              | _ => None
+              end
+          | None => None
+          end
+      | None => None
+      end
+  | [] => None
+  end.
+
+Fixpoint dec_classes (count : nat) (l : list Z) : option (list clsdef * list Z) :=
+  match count with
+  | O => Some ([], l)
+  | S c =>
+      match dec_cls l with
+      | Some (d, r) =>
+          match dec_classes c r with Some (ds, r') => Some (d :: ds, r') | None => None end
+      | None => None
+      end
+  end.
+
+Definition enc_wstate (st : state) (nsenders : Z) : list Z :=
+  enc_list (map (wstate st) (zseq nsenders)).
+
+(* case = fuel, nnames, maxcalls, class statements, senders (class of each), initial widget state of
+   each sender, cyclic flags, scripts, ops *)
 Definition run_case (l : list Z) : list Z :=
   match l with
-  | fuel :: nnames :: maxcalls :: r0 =>
-      match dec_list r0 with
-      | Some (classes, r1) =>
+  | fuel :: nnames :: maxcalls :: ncls :: r0 =>
+      if ncls <? 0 then [-1] else
+      match dec_classes (Z.to_nat ncls) r0 with
+      | Some (defs, r1) =>
           match dec_list r1 with
           | Some (senders, r2) =>
               match dec_list r2 with
+              | Some (wst, r2') =>
+              match dec_list r2' with
               | Some (cyc, r3) =>
                   match r3 with
                   | ncb :: r4 =>
@@ -448,19 +653,22 @@ Definition run_case (l : list Z) : list Z :=
                       | Some (cbs, r5) =>
                           match dec_counted_ops r5 with
                           | Some (ops, []) =>
-                              (* [classes] (truthiness of the sender classes) is not consulted *)
                               let env := MkEnv senders (map (fun b => negb (b =? 0)) cyc) cbs maxcalls in
-                              let '(st, evs) := run_top (Z.to_nat fuel) env ops (init (zlen cyc)) in
-                              let flat := flat_map ser evs in
+                              let '(st0, evs0) := boot defs wst (zlen cyc) in
+                              let '(st, evs) := run_top (Z.to_nat fuel) env ops st0 in
+                              let flat := flat_map ser (evs0 ++ evs) in
                               zlen flat :: flat_map (fun e => enc_list e) flat
                                 ++ enc_final st (zlen senders) nnames
                                 ++ enc_list (filter (fun o => memz o (st_dead st)) (zseq (zlen cyc)))
+                                ++ enc_wstate st (zlen senders)
                           | _ => [-1]
                           end
                       | None => [-1]
                       end
                   | [] => [-1]
                   end
+              | None => [-1]
+              end
               | None => [-1]
               end
           | None => [-1]
